@@ -27,6 +27,9 @@ type PoolSc struct {
 	Sched  []int       `json:"sched,omitempty"`
 	// Barrier > 0: the first Barrier tasks of round 0 wait until all of them run simultaneously.
 	Barrier int `json:"barrier,omitempty"`
+	// Late > 0: in every round a second goroutine submits Late more (un-gated) tasks while the
+	// waiter is already inside Wait and an earlier task is still running.
+	Late int `json:"late,omitempty"`
 }
 
 func (p *PoolSc) workers() int {
@@ -56,12 +59,16 @@ type poolObs struct {
 	Releases     int
 	VisibleFail  string
 	RoundsDone   int
+	NoBlock      string
+	LateLost     string
 }
 
 // runPool executes the scenario. Must run inside a bubble.
 func runPool(sc *PoolSc) *poolObs {
-	total := sc.total()
+	regular := sc.total()
+	total := regular + sc.Late*len(sc.Rounds)
 	obs := &poolObs{Counts: make([]int32, total), Plain: make([]int, total)}
+	doneFlag := make([]int32, total)
 	pool := flyt.NewWorkerPool(sc.Size)
 	w := sc.workers()
 	var mu sync.Mutex
@@ -71,11 +78,50 @@ func runPool(sc *PoolSc) *poolObs {
 	var started int32
 	barrierCh := make(chan struct{})
 	id := 0
+	lateID := regular
 	step := 0
+	body := func(ri, tid int, gated bool) func() {
+		return func() {
+			cur := atomic.AddInt32(&inflight, 1)
+			for {
+				m := atomic.LoadInt32(&obs.MaxInflight)
+				if cur <= m || atomic.CompareAndSwapInt32(&obs.MaxInflight, m, cur) {
+					break
+				}
+			}
+			atomic.AddInt32(&obs.Counts[tid], 1)
+			if ri == 0 && tid < sc.Barrier {
+				if int(atomic.AddInt32(&started, 1)) == sc.Barrier {
+					close(barrierCh)
+				}
+				<-barrierCh
+			}
+			if gated {
+				p := &parked{item: tid, gate: make(chan struct{})}
+				mu.Lock()
+				parkedL = append(parkedL, p)
+				mu.Unlock()
+				select {
+				case wake <- struct{}{}:
+				default:
+				}
+				<-p.gate
+			} else if len(sc.DurMs) > 0 {
+				time.Sleep(time.Duration(sc.DurMs[tid%len(sc.DurMs)]) * time.Millisecond)
+			}
+			obs.Plain[tid] = tid + 1 // plain write: must be visible to the waiter after Wait
+			atomic.AddInt32(&inflight, -1)
+			atomic.StoreInt32(&doneFlag[tid], 1)
+			if tid < regular {
+				atomic.AddInt32(&completed, 1)
+			}
+		}
+	}
 	for ri, round := range sc.Rounds {
 		roundFirst := id
 		var subWG sync.WaitGroup
 		roundTasks := 0
+		var submitReturned int32
 		for _, k := range round.Submitters {
 			first := id
 			id += k
@@ -85,49 +131,22 @@ func runPool(sc *PoolSc) *poolObs {
 			go func() {
 				defer subWG.Done()
 				for j := 0; j < k; j++ {
-					tid := first + j
-					pool.Submit(func() {
-						cur := atomic.AddInt32(&inflight, 1)
-						for {
-							m := atomic.LoadInt32(&obs.MaxInflight)
-							if cur <= m || atomic.CompareAndSwapInt32(&obs.MaxInflight, m, cur) {
-								break
-							}
-						}
-						atomic.AddInt32(&obs.Counts[tid], 1)
-						if ri == 0 && tid < sc.Barrier {
-							if int(atomic.AddInt32(&started, 1)) == sc.Barrier {
-								close(barrierCh)
-							}
-							<-barrierCh
-						}
-						if sc.Gated {
-							p := &parked{item: tid, gate: make(chan struct{})}
-							mu.Lock()
-							parkedL = append(parkedL, p)
-							mu.Unlock()
-							select {
-							case wake <- struct{}{}:
-							default:
-							}
-							<-p.gate
-						} else if len(sc.DurMs) > 0 {
-							time.Sleep(time.Duration(sc.DurMs[tid%len(sc.DurMs)]) * time.Millisecond)
-						}
-						obs.Plain[tid] = tid + 1 // plain write: must be visible to the waiter after Wait
-						atomic.AddInt32(&inflight, -1)
-						atomic.AddInt32(&completed, 1)
-					})
+					pool.Submit(body(ri, first+j, sc.Gated))
+					atomic.AddInt32(&submitReturned, 1)
 				}
 			}()
 		}
 		waitReturned := make(chan struct{})
+		var waiting int32
 		go func() {
 			subWG.Wait() // Wait is only legal once the round's Submit calls have returned
+			atomic.StoreInt32(&waiting, 1)
 			pool.Wait()
 			close(waitReturned)
 		}()
 		roundEnd := roundFirst + roundTasks
+		lateStarted := false
+		released := 0
 		for {
 			synctest.Wait()
 			returned := false
@@ -138,8 +157,10 @@ func runPool(sc *PoolSc) *poolObs {
 			}
 			done := int(atomic.LoadInt32(&completed))
 			if returned {
-				if done < roundEnd && obs.WaitEarly == "" {
-					obs.WaitEarly = fmt.Sprintf("round %d: Wait returned while only %d of %d submitted tasks had finished", ri, done, roundEnd)
+				for t := roundFirst; t < roundEnd; t++ {
+					if atomic.LoadInt32(&doneFlag[t]) == 0 && obs.WaitEarly == "" {
+						obs.WaitEarly = fmt.Sprintf("round %d: Wait returned while task %d, submitted before Wait was called, had not finished (%d of %d done)", ri, t, done, roundEnd)
+					}
 				}
 				break
 			}
@@ -160,6 +181,39 @@ func runPool(sc *PoolSc) *poolObs {
 					obs.QPFail = fmt.Sprintf("round %d, quiescent point %d: %d tasks in flight, want min(workers=%d, unfinished=%d)=%d", ri, step, np, w, roundEnd-done, want)
 				}
 			}
+			// Submit must block (not drop, not buffer without bound) once all workers are busy and
+			// the queue (2*workers) is full: with every gate closed a single submitter of many more
+			// tasks than that cannot have got all of them in
+			if sc.Gated && released == 0 && len(round.Submitters) == 1 && roundTasks >= 6*w+10 && obs.NoBlock == "" {
+				if got := int(atomic.LoadInt32(&submitReturned)); got >= roundTasks {
+					obs.NoBlock = fmt.Sprintf("round %d: all %d Submit calls returned although the %d workers were all blocked and nothing had been released (queue is 2*workers)", ri, got, w)
+				}
+			}
+			if sc.Late > 0 && !lateStarted && atomic.LoadInt32(&waiting) == 1 && np > 0 && np == roundEnd-done {
+				// A second goroutine submits more tasks while Wait is already in progress and an
+				// earlier task is still running. This is legal use (the WaitGroup counter stays > 0:
+				// every unfinished regular task is parked and none is released before the late
+				// submitter is done); the late batch fits into the queue, so its Submits cannot block.
+				lateStarted = true
+				nl := sc.Late
+				if nl > 2*w {
+					nl = 2 * w
+				}
+				first := lateID
+				lateID += nl
+				var lateDone int32
+				go func() {
+					for j := 0; j < nl; j++ {
+						pool.Submit(body(ri, first+j, false))
+					}
+					atomic.StoreInt32(&lateDone, 1)
+				}()
+				synctest.Wait()
+				if atomic.LoadInt32(&lateDone) == 0 && obs.QPFail == "" {
+					obs.QPFail = fmt.Sprintf("round %d: %d late Submit calls did not return although the queue had room for them", ri, nl)
+				}
+				continue
+			}
 			if np == 0 {
 				select {
 				case <-wake:
@@ -172,6 +226,7 @@ func runPool(sc *PoolSc) *poolObs {
 				choice = sc.Sched[step] % np
 			}
 			step++
+			released++
 			mu.Lock()
 			p := parkedL[choice]
 			parkedL = append(parkedL[:choice], parkedL[choice+1:]...)
@@ -179,7 +234,7 @@ func runPool(sc *PoolSc) *poolObs {
 			obs.Releases++
 			close(p.gate)
 		}
-		// after Wait: the waiter reads the plain writes of every task submitted so far
+		// after Wait: the waiter reads the plain writes of every task submitted before it
 		for t := roundFirst; t < roundEnd; t++ {
 			if obs.Plain[t] != t+1 && obs.VisibleFail == "" {
 				obs.VisibleFail = fmt.Sprintf("round %d: effect of task %d not visible after Wait", ri, t)
@@ -187,7 +242,16 @@ func runPool(sc *PoolSc) *poolObs {
 		}
 		obs.RoundsDone++
 	}
+	// late tasks may still be queued when the last Wait returned early in a broken pool; in a
+	// correct one Wait covers them too
+	pool.Wait()
 	pool.Close()
+	for t := regular; t < lateID; t++ {
+		if atomic.LoadInt32(&obs.Counts[t]) != 1 && obs.LateLost == "" {
+			obs.LateLost = fmt.Sprintf("late task %d executed %d times", t, obs.Counts[t])
+		}
+	}
+	obs.Counts = obs.Counts[:regular]
 	obs.Steps = step
 	return obs
 }
@@ -213,6 +277,12 @@ func judgePool(prop string, sc *PoolSc, obs *poolObs, fail string) Verdict {
 	if obs.QPFail != "" {
 		return bad(prop+":usable", "%s", obs.QPFail)
 	}
+	if obs.LateLost != "" {
+		return bad(prop+":exactly-once-late", "%s", obs.LateLost)
+	}
+	if obs.NoBlock != "" && prop == "C12" {
+		return bad(prop+":submit-does-not-block", "%s", obs.NoBlock)
+	}
 	subs := 0
 	for _, r := range sc.Rounds {
 		if len(r.Submitters) > subs {
@@ -236,6 +306,9 @@ func judgePool(prop string, sc *PoolSc, obs *poolObs, fail string) Verdict {
 	}
 	if sc.Size <= 0 {
 		cls = append(cls, "size<=0")
+	}
+	if sc.Late > 0 {
+		cls = append(cls, "submit-during-wait")
 	}
 	return ok(sc.total() > 3*sc.workers() || subs >= 2 || len(sc.Rounds) >= 2, cls...)
 }
@@ -264,6 +337,9 @@ func genPool(maxTasks int) func(rt *rapid.T) PoolSc {
 			p.Rounds = append(p.Rounds, round)
 		}
 		p.Gated = rapid.Bool().Draw(rt, "gated")
+		if p.Gated && rapid.Bool().Draw(rt, "late") {
+			p.Late = rapid.IntRange(1, 5).Draw(rt, "nlate")
+		}
 		if p.Gated {
 			ns := rapid.IntRange(0, 60).Draw(rt, "nsched")
 			for i := 0; i < ns; i++ {
